@@ -668,6 +668,26 @@ def _pair_input(kind, mask, vector):
     return S.build_case(kind.shape, mask, vector).node
 
 
+def _pair_input_correlated(ka, a, kb, vector):
+    if ka.direction != "in" or kb.direction != "in" or kb.gen is not None or not kb.shape:
+        return None
+    if not isinstance(a, ProtocolTreeNode):
+        return None
+    c0 = S.build_case(kb.shape, 0, vector)
+    full = (1 << len(c0.parts)) - 1
+    b = S.build_case(kb.shape, full, vector).node
+    if not isinstance(b, ProtocolTreeNode):
+        return None
+    shared = 0
+    for attr in ("id", "from", "participant"):
+        if a[attr] is not None and b[attr] is not None:
+            b.attributes[attr] = a[attr]
+            shared += 1
+        elif attr == "participant" and a[attr] is None and b[attr] is not None and shared:
+            del b.attributes[attr]      # same parties: the first stanza named no participant (an optional part)
+    return b if shared else None
+
+
 def _pair_observe(st, kind, inp):
     exc = st.send(inp) if kind.direction == "out" else st.inject(inp)
     sent, got = st.take()
@@ -691,12 +711,19 @@ def run_pairs(item):
     n = 0
     for name_b in names_b:
         kb = KIND[name_b]
-        for (va, vb) in ((0, 0), (1, 2)):
+        for (va, vb, correlated) in ((0, 0, False), (1, 2, False), (0, 1, True)):
             import copy
             with P.ProtoStack(cfg) as st:
                 a, b = _pair_input(ka, 0, va), _pair_input(kb, 0, vb)
                 if a is None or b is None:
                     break
+                if correlated:
+                    # the second stanza carries every optional part and names the same message and parties as the
+                    # first one (a read receipt after the delivery receipt of one message, a stanza delivered again
+                    # with offline=...): still nothing of the first may decide what happens to the second
+                    b = _pair_input_correlated(ka, a, kb, vb)
+                    if b is None:
+                        continue
                 try:
                     b2 = copy.deepcopy(b)      # the very same input (some constructors draw random defaults)
                 except Exception:
@@ -764,6 +791,9 @@ def run(ctx):
                 firsts.append(k.name)
     pair_cfgs = [c.key for c in P.CONFIGS if not c.enc and all(getattr(c, m) for m in P.MODULES)]
     pitems = [(ck, a, [k.name for k in plain]) for ck in pair_cfgs for a in firsts]
+    # every kind after a stanza of its own kind (quick tier too): the correlated variant of run_pairs then is "the
+    # same message and parties again" - a second receipt for one message, a stanza the server delivers again
+    pitems += [(ck, k.name, [k.name]) for ck in pair_cfgs for k in plain if k.name not in firsts]
     praw, npairs = [], 0
     for r, n in ctx.pmap(run_pairs, shuffled(pitems, ctx.seed, "c06-pairs")):
         praw.extend(r)
